@@ -397,7 +397,7 @@ spec fn same_record(a: Record, b: Record) -> bool { a.typ == b.typ && (a.cont is
                 skip_spec(frags(r0), n0 as nat) == skip_spec(frags(*self), len as nat),
                 total(frags(r0)) - n0 == total(frags(*self)) - len,
             decreases frags(*self).len(), len
-//@@ before /if [^{;]*continue_record\(\)/
+//@@ before /if self\.data\./
             let ghost f1 = frags(*self);
             proof { lemma_total_unfold(f1); }
 //@@ before /return Err\(XlsError::ContinueRecordTooShort/
